@@ -50,7 +50,7 @@ MANIFEST = dict(
     'estimation = complement, parts pairwise disjoint (folds_partition); grouped split: same, and rows of one group are never separated (groups_unsplit); '
     'bootstrap rows exist (bootstrap_subset); extract_rows positional / IndexError (extract_positional); count (count_def); flattening groups every row once, in table '
     'order per individual (flatten_roundtrip); invariant over ARBITRARY operation sequences by induction over op lists (history_inv_partial, fresh_inv; guard witnessed by '
-    'scale_panel_column_breaks_map); meaning of the relation evaluated on real outputs (fold_relation_sound). Tie: per-step correspondence with the real Database object on '
+    'scale_panel_column_breaks_map); meaning of the relations evaluated on real outputs (fold_relation_sound, groups_relation_sound, bootstrap_relation_sound). Tie: per-step correspondence with the real Database object on '
     'generated tables x operation sequences, relations evaluated by the driver on real random outputs, Python oracle from the property statement on every step.',
     design='DESIGN.md §5 C13',
     technique='Lean 4 theorems over an executable row-major table model with pandas-style labels + per-step differential correspondence with real Database objects '
